@@ -34,6 +34,28 @@ def enum_small(tier: str):
                 yield {"breaker": cfg, "ops": [list(o) for o in ops]}
 
 
+from hypothesis import strategies as st  # noqa: E402
+
+
+@st.composite
+def large_history_case(draw):
+    """Thresholds well above the usual handful, bursts of failures, exact window boundaries."""
+    thr = draw(st.sampled_from([64, 65, 66, 70, 100]))
+    spec = {"threshold": thr, "window": draw(st.sampled_from([4, 16, 64])), "recovery": 4, "trip_on": ["TRANSIENT", "SERVER_ERROR"]}
+    if draw(st.booleans()):
+        spec["class_thresholds"] = {"TRANSIENT": draw(st.sampled_from([64, 65, 70]))}
+    burst = st.tuples(st.just("fail_n"), st.sampled_from(["TRANSIENT", "SERVER_ERROR"]), st.sampled_from([1, 10, 30, 62, 63, 64, 65, 70]))
+    ops = draw(
+        st.lists(
+            st.one_of(burst, burst, st.tuples(st.just("adv_win"), st.sampled_from([-1, 0, 0, 1])), st.tuples(st.just("adv_win_class"), st.just("TRANSIENT"), st.sampled_from([-1, 0, 1])),
+                      st.tuples(st.just("adv"), st.sampled_from([1, 2, 4])), st.tuples(st.just("fail"), st.sampled_from(["TRANSIENT", "SERVER_ERROR"])), st.tuples(st.just("allow")), st.tuples(st.just("adv_rec"), st.just(0)), st.tuples(st.just("succ"))),
+            min_size=2,
+            max_size=12,
+        )
+    )
+    return {"breaker": spec, "ops": [list(o) for o in ops]}
+
+
 PROP = Property(
     id="C06",
     level="exploration",
@@ -44,7 +66,8 @@ PROP = Property(
         "advances that age the oldest live failure to exactly window_s +/- 1 tick and reach the recovery boundary; after "
         "every operation the return value and .state must equal an independent reference model's (so the circuit opens at "
         "exactly the operation where the model's live count reaches a threshold). Plus exhaustive enumeration of all histories "
-        "up to length 5/6 over an 8-letter alphabet for 3 configurations. Non-trivial = history containing an open caused by "
+        "up to length 5/6 over an 8-letter alphabet for 3 configurations, and a stream with thresholds 64..100, bursts of up to 70 "
+        "failures and exact window boundaries. Non-trivial = history containing an open caused by "
         ">= 2 failures with a clock advance between them, or a failure aged exactly to the window boundary, or a full "
         "open -> half-open -> closed -> open cycle."
     ),
@@ -52,5 +75,6 @@ PROP = Property(
     streams=[
         Stream("histories", check, strategy=lambda tier: bm.history_case(60 if tier == "quick" else 200), quick=16000, thorough=400000),
         Stream("small_histories", check, enum=enum_small, quick=1, thorough=1, exhaustive=True),
+        Stream("large_histories", check, strategy=large_history_case(), quick=3000, thorough=60000),
     ],
 )
